@@ -303,11 +303,13 @@ def _judge(request, outcome, reference, reasons, verdict):
     planted_entries = {p["at"][0] for p in planted if p["at"][1] is not None}
     reached = 0
     # which node an item belongs to: by position in the document order, not by name (discriminators may repeat, and
-    # the first bearer of a name may be below a forbidden parent and missing from the report)
-    positions = attribute_items(op["ahb"], got)
+    # the first bearer of a name may be below a forbidden parent and missing from the report). The positions are
+    # those of the 'Kann' run's report - the two reports name the same nodes in the same order (just checked), and
+    # what the run under test says about the planted node must not decide which node is taken for it
+    positions = attribute_items(op["ahb"], expected)
     if positions is None:
-        # the report does not cover the tree the way C13 states it - that is C13's to judge, and without knowing
-        # which item is the planted node nothing can be said here
+        # the report of the 'Kann' AHB itself does not cover the tree the way C13 states it - that is C13's to
+        # judge, and without knowing which item is the planted node nothing can be said here
         _bump(verdict, "report_does_not_fit_tree")
         return
     for item, reference_item, number in zip(got, expected, positions):
